@@ -24,6 +24,9 @@ import (
 	"bytes"
 	"encoding/json"
 	"fmt"
+	"io"
+	"mime"
+	"mime/multipart"
 	"net/http"
 	"reflect"
 	"sort"
@@ -62,6 +65,9 @@ type c07Case struct {
 	CreateOnly []string `json:"create_only"`
 	Excluded   []string `json:"expected_excluded"`
 	Step       string   `json:"step"`
+	Threshold  int      `json:"query_tunnelling_threshold"`
+	LongQuery  bool     `json:"long_query,omitempty"`
+	Tunnelled  bool     `json:"tunnelled,omitempty"`
 	Field      string   `json:"field,omitempty"`
 	Request    *c07Req  `json:"request,omitempty"`
 	WantBody   string   `json:"want_body,omitempty"`
@@ -73,9 +79,59 @@ type c07Case struct {
 }
 
 type c07 struct {
-	rep *hx.Report
-	r   *hx.Rand
-	e   *env
+	rep       *hx.Report
+	r         *hx.Rand
+	e         *env
+	threshold int  // Client.QueryTunnellingThreshold of e
+	long      bool // long queries: many batch keys, long query parameters
+}
+
+// the request a tunnelled wire stands for (X-HTTP-Method-Override: the query and the JSON entity travel in the body of a POST),
+// decoded independently of go-restli with mime/multipart; ok = false when the wire claims to be tunnelled and is not decodable
+func untunnel(w *wire) (u *wire, tunnelled, ok bool) {
+	verb := w.ReqHeader.Get("X-HTTP-Method-Override")
+	if verb == "" {
+		return w, false, true
+	}
+	u = &wire{Verb: verb, URI: w.URI, ReqHeader: w.ReqHeader.Clone(), Status: w.Status, ResHeader: w.ResHeader, ResBody: w.ResBody}
+	u.ReqHeader.Del("X-HTTP-Method-Override")
+	u.ReqHeader.Del("Content-Type")
+	mt, params, err := mime.ParseMediaType(w.ReqHeader.Get("Content-Type"))
+	if err != nil || w.Verb != "POST" || strings.Contains(w.URI, "?") {
+		return u, true, false
+	}
+	query := ""
+	switch mt {
+	case "application/x-www-form-urlencoded":
+		query = w.ReqBody
+	case "multipart/mixed":
+		r := multipart.NewReader(strings.NewReader(w.ReqBody), params["boundary"])
+		for {
+			part, err := r.NextPart()
+			if err == io.EOF {
+				break
+			}
+			if err != nil {
+				return u, true, false
+			}
+			b, _ := io.ReadAll(part)
+			switch part.Header.Get("Content-Type") {
+			case "application/x-www-form-urlencoded":
+				query = string(b)
+			case "application/json":
+				u.ReqBody = string(b)
+				u.ReqHeader.Set("Content-Type", "application/json")
+			default:
+				return u, true, false
+			}
+		}
+	default:
+		return u, true, false
+	}
+	if query != "" {
+		u.URI += "?" + query
+	}
+	return u, true, true
 }
 
 func parseJSON(s string) (interface{}, bool) {
@@ -241,7 +297,8 @@ func marshalFull(v reflect.Value) interface{} {
 func (d *c07) newCase(mi *methodInfo, step string) *c07Case {
 	spec := mi.Res.Spec
 	return &c07Case{Resource: mi.Res.Entry.Name, Method: mi.Spec.Name, ReadOnly: append([]string{}, spec.ReadOnly...),
-		CreateOnly: append([]string{}, spec.CreateOnly...), Excluded: expectedExcluded(spec, mi.Spec.Name), Step: step}
+		CreateOnly: append([]string{}, spec.CreateOnly...), Excluded: expectedExcluded(spec, mi.Spec.Name), Step: step,
+		Threshold: d.threshold, LongQuery: d.long}
 }
 
 func (d *c07) fail(c *c07Case, what, text string) {
@@ -263,7 +320,8 @@ func (d *c07) count(c *c07Case) {
 	}
 	d.rep.Count("annotations=" + shape)
 	d.rep.Count(fmt.Sprintf("excluded-for-method=%d", len(c.Excluded)))
-	d.rep.Distinct(c.Resource+"|"+c.Method+"|"+c.Step+"|"+c.Field, len(c.ReadOnly)+len(c.CreateOnly) > 0)
+	d.rep.Count(fmt.Sprintf("tunnelling-threshold=%d,long-query=%v,tunnelled=%v", c.Threshold, c.LongQuery, c.Tunnelled))
+	d.rep.Distinct(fmt.Sprintf("%s|%s|%s|%s|%d|%v", c.Resource, c.Method, c.Step, c.Field, c.Threshold, c.LongQuery), len(c.ReadOnly)+len(c.CreateOnly) > 0)
 }
 
 // client call with the given arguments; returns the recorded wire (nil when no request was sent)
@@ -283,6 +341,13 @@ func (d *c07) call(mi *methodInfo, args []reflect.Value, c *c07Case) (*wire, cal
 	}
 	w := d.e.T.last()
 	if w != nil {
+		u, tunnelled, ok := untunnel(w)
+		c.Tunnelled = tunnelled
+		if !ok {
+			c.Request = &c07Req{Verb: w.Verb, URI: w.URI, Body: w.ReqBody}
+			d.fail(c, "client-tunnelled-request-undecodable", "the tunnelled request the client sent cannot be decoded (method override, form-encoded query, JSON part)")
+		}
+		w = u
 		c.Request = &c07Req{Verb: w.Verb, URI: w.URI, Body: w.ReqBody}
 		c.Status = w.Status
 		c.ErrHeader = strings.ToLower(w.ResHeader.Get(restli.ErrorResponseHeader)) == "true"
@@ -366,6 +431,13 @@ func (d *c07) entityMethod(mi *methodInfo) {
 	g := &genv{r: d.r.Fork(), tame: true}
 	args := genArgs(g, mi, mt)
 	at := mt.In(ai)
+	nKeys := 2
+	if d.long {
+		nKeys = 40
+		if !d.longParams(args, mi) && method != "batch_update" {
+			return // no query to make long
+		}
+	}
 	// the full serialization of the entities passed: in order for batch_create; batch_update passes one entity under every key
 	var fulls []interface{}
 	switch method {
@@ -384,7 +456,7 @@ func (d *c07) entityMethod(mi *methodInfo) {
 	case "batch_update":
 		mp := reflect.MakeMap(at)
 		v := d.fullEntity(at.Elem())
-		for _, k := range g.keys(at.Key(), 2) {
+		for _, k := range d.keys(g, at.Key(), nKeys) {
 			mp.SetMapIndex(k, v)
 		}
 		args[ai] = mp
@@ -422,6 +494,9 @@ func (d *c07) entityMethod(mi *methodInfo) {
 	case cr.Err != nil || cr.Paniced != "" || c.Status < 200 || c.Status > 299 || c.Invoked != 1:
 		d.fail(c, "client-call-failed", "a "+method+" of an entity with every field set does not go through although the body sent is the required one")
 	}
+	if d.threshold != 0 {
+		return // the server side does not depend on the client's tunnelling threshold
+	}
 	// 2. straight to the server: the full entities (every excluded field present), then each excluded field alone
 	if len(ex) > 0 {
 		i = 0
@@ -453,6 +528,42 @@ func (d *c07) entityMethod(mi *methodInfo) {
 	c4 := d.newCase(mi, "server:pruned-entity")
 	d.send(w, jsonText(want), c4)
 	d.expectAccepted(c4, "")
+}
+
+// n distinct keys; integer keys are 1..n (the generic generator stops at a handful)
+func (d *c07) keys(g *genv, kt reflect.Type, n int) []reflect.Value {
+	if kt.PkgPath() == "" && (kt.Kind() == reflect.Int64 || kt.Kind() == reflect.Int32) {
+		out := make([]reflect.Value, n)
+		for i := range out {
+			out[i] = reflect.ValueOf(int64(1000 + i)).Convert(kt)
+		}
+		return out
+	}
+	return g.keys(kt, n)
+}
+
+// makes the query parameters of the call long (every []string parameter gets 30 items); false when the method has none
+func (d *c07) longParams(args []reflect.Value, mi *methodInfo) bool {
+	done := false
+	for i := mi.NKeys; i < len(args); i++ {
+		t := args[i].Type()
+		if t.Kind() != reflect.Ptr || t.Elem().Kind() != reflect.Struct || !strings.HasSuffix(t.Elem().Name(), "Params") || t.Elem().PkgPath() == famPkg || args[i].IsNil() {
+			continue
+		}
+		e := args[i].Elem()
+		for j := 0; j < e.NumField(); j++ {
+			f := e.Field(j)
+			if f.Kind() == reflect.Slice && f.Type().Elem().Kind() == reflect.String && f.CanSet() {
+				s := reflect.MakeSlice(f.Type(), 30, 30)
+				for k := 0; k < 30; k++ {
+					s.Index(k).SetString(fmt.Sprintf("name%02d", k))
+				}
+				f.Set(s)
+				done = true
+			}
+		}
+	}
+	return done
 }
 
 func hasAnyExcluded(e interface{}, ex []string) bool {
@@ -517,9 +628,18 @@ func (d *c07) patchMethod(mi *methodInfo) {
 			}
 			g := &genv{r: d.r.Fork(), tame: true}
 			args := genArgs(g, mi, mt)
+			if d.long && !d.longParams(args, mi) && method != "batch_partial_update" {
+				continue // no query to make long
+			}
 			if method == "batch_partial_update" {
 				mp := reflect.MakeMap(at)
-				mp.SetMapIndex(g.keys(at.Key(), 1)[0], p)
+				n := 1
+				if d.long {
+					n = 40
+				}
+				for _, k := range d.keys(g, at.Key(), n) {
+					mp.SetMapIndex(k, p)
+				}
 				args[ai] = mp
 			} else {
 				args[ai] = p
@@ -541,7 +661,7 @@ func (d *c07) patchMethod(mi *methodInfo) {
 			}
 		}
 	}
-	if valid == nil {
+	if valid == nil || d.threshold != 0 {
 		return
 	}
 	// straight to the server
@@ -624,19 +744,38 @@ func runC07HTTP(cfg *hx.Config) {
 		"entity-carrying method (create, update, partial_update, batch_create, batch_update, batch_partial_update, return-entity variants) through the GENERATED client and the GENERATED " +
 		"RegisterResource: a fully populated entity through the client (wire body = serialization minus exactly the excluded fields expected from the annotations), the same request with every / " +
 		"each single excluded field present straight to the server (400, not invoked), the pruned body (accepted); per field a $set and a $delete partial update through the client (refused before " +
-		"sending iff the field is excluded) and straight to the server (400 iff excluded). non-trivial = the resource has annotations; distinct by (resource, method, step, field)")
+		"sending iff the field is excluded) and straight to the server (400 iff excluded); the client side repeated with Client.QueryTunnellingThreshold 1 and 64, short and long queries " +
+		"(40 batch keys, 30-item list parameters; tunnelled requests decoded with mime/multipart). non-trivial = the resource has annotations; distinct by (resource, method, step, field)")
 	rs := buildResources()
 	mounts := buildMountings(rs)
-	d.e = newEnv(mounts[0], clientCfg{})
-	for _, r := range rs {
-		for _, me := range r.Methods {
-			noteRecordTypes(d.e.clientMethod(me).Type())
-		}
-	}
 	rounds := 2
 	if cfg.Thorough() {
 		rounds = 12
 	}
+	// Client.QueryTunnellingThreshold: off, every request that has a query, only long queries; with a threshold the client side is
+	// run with short and with long queries (40 batch keys, 30-item list parameters)
+	type variant struct {
+		threshold int
+		long      bool
+	}
+	for vi, v := range []variant{{0, false}, {1, false}, {64, false}, {64, true}, {1, true}} {
+		d.threshold, d.long = v.threshold, v.long
+		d.e = newEnv(mounts[0], clientCfg{Threshold: v.threshold})
+		if vi == 0 {
+			for _, r := range rs {
+				for _, me := range r.Methods {
+					noteRecordTypes(d.e.clientMethod(me).Type())
+				}
+			}
+		}
+		d.runAll(rs, rounds)
+		d.e.close()
+	}
+	d.rep.Extra["resources"] = len(rs)
+	d.rep.Write(cfg.Out)
+}
+
+func (d *c07) runAll(rs []*resInfo, rounds int) {
 	for round := 0; round < rounds; round++ {
 		for _, r := range rs {
 			if r.Spec.Schema == nil || r.Spec.Schema.Reference == nil {
@@ -658,7 +797,4 @@ func runC07HTTP(cfg *hx.Config) {
 			}
 		}
 	}
-	d.e.close()
-	d.rep.Extra["resources"] = len(rs)
-	d.rep.Write(cfg.Out)
 }
